@@ -211,4 +211,159 @@ theorem flAlgo_run_accepted_opt_partial (cfg : Cfg) (hdrop : cfg.drop = false) (
   simp only [flAlgoRun, flRun, hi, List.isEmpty_nil, if_true]
   exact flAlgo_runFrom_accepted_opt cfg hdrop rest _ _ 1 hinv hc hl
 
+/-! ## the witness: the side condition cannot be dropped -/
+
+/-- search_range 10 (B = 100), memory 0, OPTIMALITY mode -/
+def wL : Cfg := { w := [1, 1], B := 100, memory := 0, maxNeighbors := 10, maxSize := 30,
+                  vel := none, drop := false, noOpt := false }
+/-- frame 0: features Y = (10,10), S' = (10,28), S = (10,44) — sources 0, 1, 2 -/
+def wSt : State := firstState 0 [[10, 10], [10, 28], [10, 44]]
+/-- the image of frame 1 has one more bright spot at (10,36), mass 2452; the oracle keeps the
+contract (returns it iff it is within range of a source handed in) -/
+def wOrc : Oracle := fun _ pos =>
+  ([([10, 36], 2452)] : List RFeat).filter (fun x => inReach wL pos x.1)
+
+example : Good wSt := ⟨by decide, by decide⟩
+example : OracleDim wL wOrc := by
+  intro hash pos x hx
+  have := (List.mem_filter.mp hx).1
+  simp only [List.mem_singleton] at this
+  subst this
+  decide
+
+/-- frame 1: (16,28) and (18,46) are detected.  Y has no candidate and is lost; it is 18 ≤ 2·10
+from S', so the two are merged: sub-net `([1, 0], [0])` with shortage 1.  S (34 from Y) keeps its
+own sub-net `([2], [1])`. -/
+theorem wGroups : flGroups wL wSt 1 [[16, 28], [18, 46]] = [([1, 0], [0]), ([2], [1])] := by
+  decide +kernel
+
+/-- the lost sources are `[0]` only: S' is a member of the merged sub-net but not lost -/
+example : lostSources (groups1 wL wSt 1 [[16, 28], [18, 46]]) = [0] := by decide +kernel
+
+/-- the model relocates (10,36) for the merged sub-net (it is 8 from S'), links S' → (16,28)
+(cost 36), S → (18,46) (cost 68) and starts a new trajectory (label 5) at (10,36) -/
+theorem wStep : flAlgoStep wL wSt 1 wOrc [[16, 28], [18, 46]] =
+    { dsts := [[16, 28], [18, 46], [10, 36]], added := [2], masses := [2452],
+      labels := [1, 2, 5] } := by
+  unfold flAlgoStep flAcc
+  rw [wGroups]
+  simp [processGroup, short, viewOf, view, wSt, firstState, nextState,
+    fcands, candsOf, candsOfRow, distRow, dist2, sqI, insCand, keepCand_none, keepCand_some,
+    solveOrdered, go, exceeds, taken, better, wOrc, inReach, wL, labelOf, trackOf, initCfg,
+    List.range, List.range.loop, List.zipIdx, List.filter_cons, addTaken, freshBase]
+
+/-- **flAlgo_cross_witness.**  The negation of lemma (a) as `Props/C14Algo.lean` states it: the
+feature added for the sub-net `([1, 0], [0])` is within `search_range` of source 2 (squared
+distance 64 ≤ 100), a source of the OTHER sub-net — and closer to it than the detection the
+model links it to (68).  The side condition `addedLocalB` is false on this step. -/
+theorem flAlgo_cross_witness :
+    flGroups wL wSt 1 [[16, 28], [18, 46]] = [([1, 0], [0]), ([2], [1])] ∧
+    (flAlgoStep wL wSt 1 wOrc [[16, 28], [18, 46]]).dsts[2]? = some [10, 36] ∧
+    dist2 wL.w (viewOf wL wSt 1 1) [10, 36] = 64 ∧ dist2 wL.w (viewOf wL wSt 1 2) [10, 36] = 64 ∧
+    dist2 wL.w (viewOf wL wSt 1 2) [18, 46] = 68 ∧
+    addedLocalB wL wSt 1 (flGroups wL wSt 1 [[16, 28], [18, 46]]) 2
+      (flAlgoStep wL wSt 1 wOrc [[16, 28], [18, 46]]).dsts = false := by
+  rw [wStep, wGroups]
+  refine ⟨rfl, rfl, by decide, by decide, by decide, by decide +kernel⟩
+
+/-- on the emitted level S' and S are in ONE connected component (both see (10,36)) -/
+theorem wGroupsL : stepGroups wL wSt 1 [[16, 28], [18, 46], [10, 36]] = [([2, 1], [0, 2, 1])] := by
+  decide +kernel
+
+/-- … on which the model's links (36 + 68) are not a minimum-cost assignment (36 + 64) -/
+theorem wOptWhy : optWhy wL wSt 1 [[16, 28], [18, 46], [10, 36]] [1, 2, 5] =
+    some "links are not a minimum-cost assignment" := by
+  unfold optWhy
+  rw [wGroupsL]
+  simp [stepCands, gSrcs, gAsg, srcOf, asgOf, chosenOf, getD', groupOkB, pairwiseDisjointB,
+    groupDests, dests, wSt, firstState, nextState, candsOf, candsOfRow, distRow, dist2, sqI,
+    insCand, view, solveOrdered, go, exceeds, taken, better, wL, initCfg, List.range,
+    List.range.loop, List.zipIdx, addTaken, sortedB, admissibleB, cost, List.idxOf?,
+    List.findIdx?, List.findIdx?.go]
+
+/-- **flAlgo_opt_witness.**  The FULL statement of `Props/C14Algo.lean` (acceptance in optimality
+mode without a side condition) is false: on this state, level and contract-keeping oracle every
+other hypothesis of `flAlgo_accepted_opt_partial` holds (`drop = false`, `Good`, no oversize
+sub-net, nothing capped), and `flStep` REJECTS the model's own output. -/
+theorem flAlgo_opt_witness :
+    wL.drop = false ∧ Good wSt ∧
+    (oversizeB wL (stepGroups wL wSt 1 (flAlgoStep wL wSt 1 wOrc [[16, 28], [18, 46]]).dsts) &&
+      !(cappedB wL wSt 1 (flAlgoStep wL wSt 1 wOrc [[16, 28], [18, 46]]).dsts)) = false ∧
+    cappedB wL wSt 1 (flAlgoStep wL wSt 1 wOrc [[16, 28], [18, 46]]).dsts = false ∧
+    flStep wL wSt 1 (flAlgoStep wL wSt 1 wOrc [[16, 28], [18, 46]]).dsts
+      (flAlgoStep wL wSt 1 wOrc [[16, 28], [18, 46]]).labels
+      (flAlgoStep wL wSt 1 wOrc [[16, 28], [18, 46]]).added = none := by
+  rw [wStep]
+  have hv : validWhy wL wSt 1 [[16, 28], [18, 46], [10, 36]] [1, 2, 5] = none := by decide +kernel
+  have hc : cappedB wL wSt 1 [[16, 28], [18, 46], [10, 36]] = false := by decide +kernel
+  have ho : oversizeB wL (stepGroups wL wSt 1 [[16, 28], [18, 46], [10, 36]]) = false := by
+    rw [wGroupsL]; decide
+  refine ⟨rfl, ⟨by decide, by decide⟩, by simp only [ho, Bool.false_and], hc, ?_⟩
+  unfold flStep stepCheck
+  simp only [hv, hc, ho, wOptWhy]
+  simp [wL]
+
+/-! ## non-vacuity (tests, labelled as such) -/
+
+/-- the configuration of `Props/C14Algo.exL` in OPTIMALITY mode -/
+def exLo : Cfg := { exL with noOpt := false }
+
+theorem exGroupsO : flGroups exLo exSt 1 [[1, 0]] = [([0], [0]), ([1], [])] := by decide +kernel
+
+/-- the step of `Props/C14Algo.exStep` (one detection, the lost source re-found at (11,1)) -/
+theorem exStepO : flAlgoStep exLo exSt 1 exOrc [[1, 0]] =
+    { dsts := [[1, 0], [11, 1]], added := [1], masses := [30], labels := [0, 1] } := by
+  unfold flAlgoStep flAcc
+  rw [exGroupsO]
+  simp [processGroup, short, viewOf, view, exSt, firstState, nextState,
+    fcands, candsOf, candsOfRow, distRow, dist2, sqI, insCand, keepCand_none, keepCand_some,
+    solveOrdered, go, exceeds, taken, better, exOrc, inReach, exLo, exL, exF, labelOf, trackOf,
+    initCfg, List.range, List.range.loop, List.zipIdx, List.filter_cons]
+
+/-- the hypotheses of `flAlgo_accepted_opt_partial` are satisfiable with a relocated feature, and
+the monitor accepts the step in optimality mode (the instance of the theorem, evaluated) -/
+example : flStep exLo exSt 1 [[1, 0], [11, 1]] [0, 1] [1] =
+    some (nextState exLo exSt 1 [[1, 0], [11, 1]] [0, 1]) := by
+  have h := flAlgo_accepted_opt_partial exLo rfl exSt ⟨by decide, by decide⟩ 1 exOrc [[1, 0]]
+    (by rw [exStepO]; decide +kernel) (by rw [exStepO, exGroupsO]; decide +kernel)
+  rw [exStepO] at h
+  exact h
+
+/-- … and so are those of `flAlgo_accepted_opt_of_lost`: the sub-net with a shortage, `([1], [])`,
+consists of the lost source 1 -/
+example : OracleDim exLo exOrc ∧ ∀ g ∈ flGroups exLo exSt 1 [[1, 0]], short g = true →
+    ∀ i ∈ g.1, i ∈ lostSources (groups1 exLo exSt 1 [[1, 0]]) := by
+  constructor
+  · intro hash pos x hx
+    have := (List.mem_filter.mp hx).1
+    simp only [List.mem_singleton] at this
+    subst this
+    decide
+  · have hl : lostSources (groups1 exLo exSt 1 [[1, 0]]) = [1] := by decide +kernel
+    rw [exGroupsO, hl]
+    decide
+
+/-- whole movie in optimality mode (the instance of `flAlgo_run_accepted_opt_partial`) -/
+example : flRun exLo (flAlgoRun exLo [(0, [[0, 0], [10, 0]], exOrc), (1, [[1, 0]], exOrc)]) = none :=
+  flAlgo_run_accepted_opt_partial exLo rfl 0 _ exOrc [(1, [[1, 0]], exOrc)]
+    ⟨by have h := exStepO; unfold exSt at h; rw [h]; decide +kernel, trivial⟩
+    ⟨by have h := exStepO; have hg := exGroupsO; unfold exSt at h hg; rw [h, hg]; decide +kernel,
+      trivial⟩
+
+/-- lemma (b) on concrete numbers: two sub-nets, `[0 → dest 0 (1) | none (9)]` and
+`[1 → dest 1 (2) | none (9)]` -/
+example : IsOptimal [[(some 0, 1), (none, 9)]] [(some 0, 1)] := by
+  have hopt : IsOptimal ([[(some 0, 1), (none, 9)]] ++ [[(some 1, 2), (none, 9)]])
+      ([(some 0, 1)] ++ [(some 1, 2)]) := by
+    refine ⟨by simp [Admissible, AdmTk, dests], ?_⟩
+    intro a' ha'
+    obtain ⟨hp, _, _⟩ := ha'
+    match a', hp with
+    | [c1, c2], hp =>
+      simp only [List.cons_append, List.nil_append, picks_cons_cons, List.mem_cons,
+        List.not_mem_nil, or_false, picks_nil_nil, and_true] at hp
+      obtain ⟨h1, h2⟩ := hp
+      rcases h1 with rfl | rfl <;> rcases h2 with rfl | rfl <;> simp [cost]
+  exact (isOptimal_append_split _ _ (by simp [groupDests, dests]) _ _ rfl hopt).1
+
 end TrackpyV.FindLink
